@@ -452,6 +452,14 @@ func runCluster(h *h3, hooks clusterHooks) *cluster {
 			if n.up {
 				h.s.Stall(n.node, sleeps[int(op.Arg(1, 0))%len(sleeps)])
 			}
+		case "stalll":
+			// a slow partition leader: none of its tasks runs for 1 - 7 s (garbage collection, a swapped-out
+			// process, a saturated disk); it then continues where it was, with its queues full
+			if ld := c.leader(); ld != nil {
+				d := time.Second + time.Duration(op.Arg(0, 0)%12)*500*time.Millisecond + time.Duration(op.Arg(1, 0)%12)*40*time.Millisecond
+				h.s.Logf("stall leader %s for %v", ld.id, d)
+				h.s.Stall(ld.node, d)
+			}
 		case "sleep":
 			simrt.Sleep(sleeps[int(op.Arg(0, 0))%len(sleeps)])
 		}
